@@ -55,7 +55,7 @@ reg("C08", "^TestC08$", q=(200, 4, 900), t=(1000, 16, 3600), batch=200,
     note="Trusted: ref.VerifyProof / ref.Frontier / ref.Sparse (mirrors of the contracts, self-checked and tied to the real contract in C01/C11 EVM legs).",
     design="§3 C08")
 
-reg("C14", "^TestC14$", q=(150, 4, 900), t=(1000, 16, 3600), batch=150,
+reg("C14", "^TestC14(Driver)?$", q=(150, 4, 900), t=(1000, 16, 3600), batch=150,
     technique="property-based testing: rapid-generated halting histories and reorg points; entry points enumerated by reflection; oracle = explicit ErrInconsistentState + zero data while halted, cleared only by a row-deleting reorg",
     text="Exploration: every exported error-returning method of *BridgeSync and *L1InfoTreeSync (reflection, so new entry points are "
          "included) is called while the real processor is halted by a generated inconsistency; reorg points decide whether the halt must persist or clear.",
@@ -78,15 +78,15 @@ reg("C05", "^TestC05$", q=(300, 4, 900), t=(3000, 16, 3600), batch=300,
     note="Trusted: fakechain (honours range/address filters like a node). Quiescence = script finished and >=3 consecutive tip polls without other RPC; 'missing' is only reported if still missing while idle; a 30 s cap is inconclusive (exit 2). Hash-mismatch retries (mutating chain) belong to C06.",
     design="§3 C05")
 
-reg("C16", "^TestC16$", q=(80, 4, 900), t=(800, 16, 3600), batch=120,
-    technique="property-based testing: rapid-generated L2 GER insert/remove histories, polling cadences and restarts through the public lastgersync.New (PP) + real reorg detector on a scripted chain; oracle = reference set of live injected GERs",
+reg("C16", "^TestC16(FEP)?$", q=(80, 4, 900), t=(800, 16, 3600), batch=120,
+    technique="property-based testing: rapid-generated L2 GER insert/remove histories, polling cadences, a lagging L1 info syncer and restarts through the public lastgersync.New (PP mode; a quarter of the budget in FEP mode, where the scripted chain answers the downloader's eth_call to the L2 GER contract) + real reorg detector on a scripted chain; oracle = reference set of live injected GERs",
     text="Exploration: the public constructor's syncer (real PP downloader, driver, processor, reorg detector) follows a scripted L2 "
          "chain whose tip advances by 1..10 blocks between polls, with restarts; at quiescence every index query must return a live "
          "injected GER with index >= X whenever one exists.",
-    note="Trusted: fakechain; the model L1InfoTreeQuerier. Quiescence = cadence script finished and >=3 consecutive tip polls without other RPC; a mismatch is reported only if it persists while idle; 30 s cap = inconclusive. Forked L2 chains are covered at store level by C04 and at driver level by C06.",
+    note="Trusted: fakechain; the model L1InfoTreeQuerier. Quiescence = cadence script finished and >=3 consecutive tip polls without a range query (PP) / contract call (FEP); a mismatch is reported only if it persists for 3 s while idle; 120 s cap = inconclusive. Forked L2 chains are covered at store level by C04 and at driver level by C06.",
     design="§3 C16")
 
-reg("C20", "^TestC20$", q=(3000, 4, 600), t=(30000, 16, 3000), fuzz=("FuzzC20", 180),
+reg("C20", "^TestC20(E2E)?$", q=(3000, 4, 600), t=(30000, 16, 3000), fuzz=("FuzzC20", 180),
     technique="property-based testing: grammar-generated call trees (rapid) + native coverage-guided fuzzing through a structured byte decoder; oracle = recursive specification of the live matching call",
     text="Exploration: generated debug_traceTransaction call trees (both ABI generations packed with the real contract ABIs, reverted "
          "frames anywhere, decoys) are fed to the real setClaimCalldata/findCall/decode path; the recorded details must be those of a "
